@@ -1,15 +1,15 @@
 #!/bin/sh
 # usage: confirm_seed.sh <Cxx> <i>   -> prints CONFIRMED / REJECTED with reasons; leaves the worktree clean
 P=$1; I=$2; W=/tmp/wt/$P
-export CARGO_NET_OFFLINE=true CARGO_TARGET_DIR=/tmp/wt/_target
+export CARGO_NET_OFFLINE=true CARGO_TARGET_DIR=/tmp/wt/$P/target
 cd $W || exit 2
 git checkout -q -- src build.rs Cargo.toml 2>/dev/null; rm -rf tests; mkdir -p tests
 if [ -f out/demo$I.rs ]; then cp out/demo$I.rs tests/demo$I.rs; KIND=rs; elif [ -f out/demo$I.py ]; then KIND=py; else echo "$P/$I REJECTED no demo"; exit 1; fi
 run_demo() {
   if [ $KIND = rs ]; then
-    timeout 900 cargo test --offline --no-default-features --test demo$I >/tmp/wt/_demo.log 2>&1
+    timeout 900 cargo test --offline --no-default-features --test demo$I >/tmp/wt/$P/out/_demo$I.log 2>&1
   else
-    timeout 900 cargo build --offline --lib --features python >/tmp/wt/_demo.log 2>&1 && mkdir -p /tmp/wt/_pymod && cp /tmp/wt/_target/debug/libsimilari.so /tmp/wt/_pymod/similari.so && timeout 600 python3 out/demo$I.py /tmp/wt/_pymod >>/tmp/wt/_demo.log 2>&1
+    timeout 900 cargo build --offline --lib --features python >/tmp/wt/$P/out/_demo$I.log 2>&1 && mkdir -p /tmp/wt/$P/_pymod && cp /tmp/wt/$P/target/debug/libsimilari.so /tmp/wt/$P/_pymod/similari.so && timeout 600 python3 out/demo$I.py /tmp/wt/$P/_pymod >>/tmp/wt/$P/out/_demo$I.log 2>&1
   fi
 }
 run_demo; clean_rc=$?
@@ -17,7 +17,7 @@ git apply out/mutation$I.diff || { echo "$P/$I REJECTED patch does not apply"; e
 run_demo; mut_rc=$?
 rm -rf tests
 suite_rc=1
-for k in 1 2 3; do timeout 900 cargo test --offline >/tmp/wt/_suite.log 2>&1; suite_rc=$?; [ $suite_rc = 0 ] && break; done
-npass=$(grep -E "^test result: ok. 81 passed" /tmp/wt/_suite.log | wc -l)
+for k in 1 2 3; do timeout 900 cargo test --offline >/tmp/wt/$P/out/_suite$I.log 2>&1; suite_rc=$?; [ $suite_rc = 0 ] && break; done
+npass=$(grep -E "^test result: ok. 81 passed" /tmp/wt/$P/out/_suite$I.log | wc -l)
 git checkout -q -- src build.rs Cargo.toml 2>/dev/null; rm -rf tests
 if [ $clean_rc = 0 ] && [ $mut_rc != 0 ] && [ $suite_rc = 0 ] && [ $npass -ge 1 ]; then echo "$P/$I CONFIRMED (demo clean rc=$clean_rc, with change rc=$mut_rc, suite ok)"; else echo "$P/$I REJECTED (demo clean rc=$clean_rc, with change rc=$mut_rc, suite rc=$suite_rc 81ok=$npass)"; fi
